@@ -16,7 +16,7 @@ import (
 // four values of the two flag numbers of the arc command.
 func c18ArcCenter(c *core.Check) {
 	p := c.Prog
-	r := c.Rule("R5", "arc centre as SVG F.6.5/F.6.6 defines it: for the four (large-arc, sweep) flag values as addArcFromA passes them, findEllipseCenter returns M + R(φ)·(± k·rx·y1'/ry, ∓ k·ry·x1'/rx) with k² = (rx²ry² − rx²y1'² − ry²x1'²)/(rx²y1'² + ry²x1'²) and + iff the flags differ; radii too small for the chord are both multiplied by √Λ (their ratio is kept) and the centre is then the chord midpoint", 6)
+	r := c.Rule("R5", "arc centre as SVG F.6.5/F.6.6 defines it: for the four (large-arc, sweep) flag values as addArcFromA passes them, findEllipseCenter returns M + R(φ)·(± k·rx·y1'/ry, ∓ k·ry·x1'/rx) with k² = (rx²ry² − rx²y1'² − ry²x1'²)/(rx²y1'² + ry²x1'²) and + iff the flags differ; radii too small for the chord are both multiplied by √Λ (their ratio is kept) and the centre is then the chord midpoint", 4)
 	fn := p.Fn("svg", "findEllipseCenter")
 	caller := p.Method("svg", "pathParser", "addArcFromA")
 	if fn == nil || caller == nil || len(fn.Params) != 9 {
